@@ -8,7 +8,6 @@ import (
 
 	"github.com/cloudwego/gopkg/protocol/thrift"
 	"github.com/cloudwego/gopkg/protocol/thrift/base"
-	netpoll "github.com/cloudwego/gopkg/verifshim/vnetpoll"
 
 	"verif/mc"
 )
@@ -244,16 +243,17 @@ func c15One(c *mc.Ctx, k c15Case) {
 			bad("nil-writer-differs", "without a direct writer the two paths are not byte-identical")
 			return
 		}
-		// the repository's own test writer must agree with the independent splice
+		// a second writer that follows the convention of network buffers (the splice position is counted from the END of
+		// the allocated buffer: remainCap bytes remain after it) must agree with the independent splice
 		if k.W && k.Spare == 0 && k.Extra == 0 {
-			nw := &netpoll.NetpollDirectWriter{}
+			nw := &endWriter{}
 			nb := nw.Malloc(total)
 			rw.recs, rw.buf = nil, nil
 			w = nw
 			n2 := write(nb)
 			_ = n2
 			if !bytes.Equal(nw.Bytes(), copying) {
-				bad("netpoll-writer", "NetpollDirectWriter.Bytes() differs from the copying path")
+				bad("end-relative-splice", "splicing at positions counted from the end of the buffer (remainCap) differs from the copying path")
 			}
 		}
 	})
@@ -370,4 +370,48 @@ func init() {
 		Run:    c15Run,
 		Replay: func(c *mc.Ctx, sub string, raw json.RawMessage) { replayAs(raw, func(k c15Case) { c15One(c, k) }) },
 	})
+}
+
+// endWriter is a direct writer in the style of a network link buffer: Malloc hands out the whole linear buffer, every
+// WriteDirect records the piece and how many bytes of the linear buffer remain AFTER it.
+type endWriter struct {
+	data []byte
+	wbuf [][]byte
+	wend []int
+}
+
+func (p *endWriter) Malloc(n int) []byte {
+	p.wbuf, p.wend = p.wbuf[:0], p.wend[:0]
+	p.data = make([]byte, n)
+	return p.data
+}
+
+func (p *endWriter) WriteDirect(b []byte, remainCap int) error {
+	if remainCap < len(b) {
+		panic("endWriter: the remaining capacity cannot hold the piece")
+	}
+	p.wbuf = append(p.wbuf, b)
+	p.wend = append(p.wend, remainCap)
+	return nil
+}
+
+// Bytes splices the pieces in: the linear buffer was sized for the copying path, so each piece replaces as many
+// bytes of it.
+func (p *endWriter) Bytes() []byte {
+	ret := make([]byte, 0, len(p.data))
+	start := 0
+	for i := range p.wend {
+		end := len(p.data) - p.wend[i]
+		if end < start || end > len(p.data) {
+			return nil
+		}
+		ret = append(ret, p.data[start:end]...)
+		ret = append(ret, p.wbuf[i]...)
+		start = end
+	}
+	left := len(p.data) - len(ret)
+	if left < 0 || start+left > len(p.data) {
+		return nil
+	}
+	return append(ret, p.data[start:start+left]...)
 }
